@@ -143,7 +143,7 @@ fn cv_run(e: &'static Engine, workers: usize, parts: &'static [(char, &'static s
 /// forwarding clause: A (times out after 1ms / is cancelled) and B wait; exactly one notify_one is issued while both are
 /// registered; if A did not consume it (timed out / ended by Cancel) B must be woken by it. A rescue notify_all after
 /// 5 ms ends the scenario either way.
-fn cv_forward(e: &'static Engine, workers: usize, cancel_a: bool) {
+fn cv_forward(e: &'static Engine, workers: usize, cancel_a: bool, hold: bool) {
     static RESCUE: AtomicBool = AtomicBool::new(false);
     static A_NOTIFIED: AtomicBool = AtomicBool::new(false);
     static B_BEFORE_RESCUE: AtomicBool = AtomicBool::new(false);
@@ -180,12 +180,23 @@ fn cv_forward(e: &'static Engine, workers: usize, cancel_a: bool) {
     });
     // both are registered once both counted themselves and the mutex could be taken again
     e.wait_flag(&BOTH);
-    {
+    if hold {
+        // the notifier owns the mutex while A's wait ends (timeout / cancel): A is popped by the notify_one
+        // after its park has already ended and before it could run its epilogue
         let _g = p.m.lock().unwrap();
+        if cancel_a {
+            unsafe { a.coroutine().cancel() };
+        }
+        e.vsleep(2_000_000);
         p.cv.notify_one();
-    }
-    if cancel_a {
-        unsafe { a.coroutine().cancel() };
+    } else {
+        {
+            let _g = p.m.lock().unwrap();
+            p.cv.notify_one();
+        }
+        if cancel_a {
+            unsafe { a.coroutine().cancel() };
+        }
     }
     // give the single notification time to arrive, then release whoever is left
     let h = go!(|| may::coroutine::sleep(Duration::from_millis(5)));
@@ -307,8 +318,10 @@ pub fn build(quick: bool) -> Vec<Scenario> {
         // one waiter times out / is cancelled while a single notify_one races: the other waiter must get it
         v.push(mk_cv(w, &[('C', "T"), ('C', "W")], "nn", None));
         v.push(mk_cv(w, &[('C', "W"), ('C', "W")], "nn", Some(0)));
-        v.push(Scenario::new("C11", "condvar_forward", format!("condvar.forward.timeout.w{}", w), Arc::new(move |e| cv_forward(e, w, false))).t2().vt_horizon(50_000_000));
-        v.push(Scenario::new("C11", "condvar_forward", format!("condvar.forward.cancel.w{}", w), Arc::new(move |e| cv_forward(e, w, true))).vt_horizon(50_000_000));
+        v.push(Scenario::new("C11", "condvar_forward", format!("condvar.forward.timeout.w{}", w), Arc::new(move |e| cv_forward(e, w, false, false))).t2().vt_horizon(50_000_000));
+        v.push(Scenario::new("C11", "condvar_forward", format!("condvar.forward.cancel.w{}", w), Arc::new(move |e| cv_forward(e, w, true, false))).vt_horizon(50_000_000));
+        v.push(Scenario::new("C11", "condvar_forward", format!("condvar.forward.timeout.notifier_holds_mutex.w{}", w), Arc::new(move |e| cv_forward(e, w, false, true))).vt_horizon(50_000_000));
+        v.push(Scenario::new("C11", "condvar_forward", format!("condvar.forward.cancel.notifier_holds_mutex.w{}", w), Arc::new(move |e| cv_forward(e, w, true, true))).vt_horizon(50_000_000));
         v.push(mk_cv(w, &[('C', "W"), ('C', "n")], "", None));
     }
     // barrier and wait group
